@@ -134,12 +134,14 @@ impl ToTokens for FromMetaImpl<'_> {
                             0 => ::darling::export::Err(::darling::Error::too_few_items(1)),
                             1 => {
                                 if let ::darling::export::NestedMeta::Meta(ref __nested) = __outer[0] {
-                                    match ::darling::util::path_to_string(__nested.path()).as_ref() {
+                                    // Every error of the selected variant concerns this nested item,
+                                    // not the whole list it sits in.
+                                    (match ::darling::util::path_to_string(__nested.path()).as_ref() {
                                         #(#data_variants)*
-                                        __other => ::darling::export::Err(::darling::Error::#unknown_variant_err.with_span(__nested))
-                                    }
+                                        __other => ::darling::export::Err(::darling::Error::#unknown_variant_err)
+                                    }).map_err(|e: ::darling::Error| e.with_span(__nested))
                                 } else {
-                                    ::darling::export::Err(::darling::Error::unsupported_format("literal"))
+                                    ::darling::export::Err(::darling::Error::unsupported_format("literal").with_span(&__outer[0]))
                                 }
                             }
                             _ => ::darling::export::Err(::darling::Error::too_many_items(1)),
